@@ -413,3 +413,68 @@ Example C01_source_pipeline_dyn_nonvacuous :
   | None => False
   end.
 Proof. exact X.BC.SourceGuard.source_pipeline_dyn_nonvacuous. Qed.
+
+(* the stack-depth condition of OpMap follows, like the alignment, from the run not ending in the malformed-bytecode
+   failure (the model VM stops with it there): what is left, run_guard_num, is arithmetic on Go ints only - open scopes,
+   OpInc counter + 1, vm.memory + n (OpArray / OpMap), argument counts <= MaxInt, and 0 <= n at OpMap (a negative size
+   is EOther in the model and an empty map in Go: C06_map_negative_size_in_go; not readable off the result) *)
+Theorem C01_run_guard_of_num :
+  forall fe cfg env C d r,
+    X.BC.SourceGuard.cfg_int cfg = true -> run_code fe cfg env C d = Some r -> not_machine r ->
+    X.BC.SourceGuard.run_guard_num fe cfg env C d init_state = true -> VMSteps.run_guard fe cfg env C d init_state = true.
+Proof. exact X.BC.SourceGuard.run_guard_of_num_init. Qed.
+Print Assumptions C01_run_guard_of_num.
+
+Theorem C01_source_pipeline_correct_num :
+  forall fe cfg env c e dc before,
+    fn_no_machine fe -> compilable e = true -> (esize e <= dc)%nat -> X.BC.SourceGuard.cfg_int cfg = true ->
+    exists P, gen_compile_program GenSchemes.schemes dc (c_mapenv cfg) c e = Some P /\
+    exists d0, forall d, (d0 <= d)%nat ->
+      X.BC.SourceGuard.run_guard_num fe cfg env P d init_state = true ->
+      option_map VMSteps.erase_stop_mem (VMSteps.interp_run fe cfg env P GenVMSteps.vm_src d before)
+      = Some (VMSteps.erase_stop_mem (run_ref fe cfg env c e)).
+Proof. exact X.BC.SourceGuard.source_pipeline_correct_num. Qed.
+Print Assumptions C01_source_pipeline_correct_num.
+
+Example C01_map_underflow_is_not_numeric :
+  X.BC.SourceGuard.vm_in_scope_num IMap BrVMSteps.w_mapkey_state = true /\
+  VMSteps.vm_in_scope IMap BrVMSteps.w_mapkey_state = false /\
+  step BrVMSteps.w_fe BrVMSteps.w_cfg VNil [(IMap, noloc)] BrVMSteps.w_mapkey_state = Crash EMachine noloc rs0.
+Proof. exact X.BC.SourceGuard.map_underflow_is_not_numeric. Qed.
+
+Example C01_source_pipeline_num_nonvacuous :
+  match X.BC.SourceCorrect.cap_code with
+  | Some P => X.BC.SourceGuard.run_guard_num BrVMSteps.w_fe BrVMSteps.w_cfg VNil P 9 init_state = true /\
+              X.BC.SourceGuard.run_guard_num BrVMSteps.w_fe (mkCfg false 7) VNil P 9 init_state = true
+  | None => False
+  end.
+Proof. exact X.BC.SourceGuard.source_pipeline_num_nonvacuous. Qed.
+
+(* ---- the numeric rest reduced to a bound invariant (BC/SourceBounds.v) ---- *)
+(* if every visited state is num_ok B (open scopes <= B; at OpInc the integer variables of the innermost scope in [0, B];
+   at OpArray / OpMap the size operand within [.., B] / [0, B]; argument counts <= B) and B + 1 + max 0 budget <= MaxInt
+   (slack), the capstone holds with no reference to vm_in_scope.  That compiled code over a length-bounded universe
+   (SourceBounds.len_bounded, fe_len_bounded, code_len_bounded) visits only such states is
+   SourceBounds.compiled_states_bounded_statement: NOT proved - it needs the intermediate states of compile_correct. *)
+Require X.BC.SourceBounds.
+
+Theorem C01_source_pipeline_correct_bounded :
+  forall B fe cfg env c e dc before,
+    fn_no_machine fe -> compilable e = true -> (esize e <= dc)%nat ->
+    X.BC.SourceGuard.cfg_int cfg = true -> X.BC.SourceBounds.slack B cfg = true ->
+    exists P, gen_compile_program GenSchemes.schemes dc (c_mapenv cfg) c e = Some P /\
+    exists d0, forall d, (d0 <= d)%nat ->
+      X.BC.SourceBounds.run_num_ok B fe cfg env P d init_state = true ->
+      option_map VMSteps.erase_stop_mem (VMSteps.interp_run fe cfg env P GenVMSteps.vm_src d before)
+      = Some (VMSteps.erase_stop_mem (run_ref fe cfg env c e)).
+Proof. exact X.BC.SourceBounds.source_pipeline_correct_bounded. Qed.
+Print Assumptions C01_source_pipeline_correct_bounded.
+
+Example C01_source_pipeline_bounded_nonvacuous :
+  X.BC.SourceBounds.slack 3 BrVMSteps.w_cfg = true /\
+  match X.BC.SourceCorrect.cap_code with
+  | Some P => X.BC.SourceBounds.run_num_ok 3 BrVMSteps.w_fe BrVMSteps.w_cfg VNil P 9 init_state = true /\
+              X.BC.SourceBounds.run_num_ok 2 BrVMSteps.w_fe BrVMSteps.w_cfg VNil P 9 init_state = false
+  | None => False
+  end.
+Proof. vm_compute. repeat split; reflexivity. Qed.
